@@ -58,6 +58,10 @@ class Engine(ExprMixin, CallMixin, StmtMixin):
             return VNone
         if ty == 'any':
             return Val('opaque', None, what=name)
+        if ty == 'elist':
+            return self.fresh_val('seq[E]', name, st)
+        if ty == 'strlike':
+            return VS(fresh(name, Str))
         if ty.startswith('seq['):
             el = ty[4:-1]
             return VSeq(fresh(name, seqsort(el)), el)
@@ -70,6 +74,11 @@ class Engine(ExprMixin, CallMixin, StmtMixin):
                        hi=self.fresh_val(parts[1], name + '_hi', st), step=None)
         if ty.startswith('const:'):
             return self.lookup_global(ty[6:], None)
+        if ':' in ty and ty.split(':')[0] in self.reg.views:
+            vname, cls = ty.split(':')
+            obj = self.fresh_val(vname, name, st)
+            obj.a['cls'] = cls
+            return obj
         if ty in self.reg.views:
             view = self.reg.views[ty]
             obj = st.new_obj(view.qual, {})
@@ -89,6 +98,9 @@ class Engine(ExprMixin, CallMixin, StmtMixin):
             return v.ty == 'none' or (v.ty == 'opt' and self.matches(v.a['some'], ty[:-1])) or self.matches(v, ty[:-1])
         if ty in ('int', 'nat'):
             return v.ty == 'int'
+        if ty == 'E' and v.ty == 'obj':
+            return 'view' in v.a and v.a['view'] == 'UExpr' or (self._view_or_none(v) is not None and
+                                                                  self._view_or_none(v).short == 'UExpr')
         if ty in ('bool', 'str', 'E', 'none'):
             return v.ty == ty
         if ty in ('tok', 'freshtok'):
@@ -96,13 +108,25 @@ class Engine(ExprMixin, CallMixin, StmtMixin):
         if ty == 'strlike':
             return v.ty in ('str', 'tok')
         if ty.startswith('seq['):
-            return v.ty == 'seq' and v.a['elem'] == ty[4:-1]
+            if v.ty == 'seq':
+                return v.a['elem'] == ty[4:-1]
+            return self._as_seq(v, ty[4:-1]) is not None
         if ty.startswith('tuple['):
             parts = _split_types(ty[6:-1])
             return v.ty == 'tuple' and len(parts) == len(v.a['items']) and all(
                 self.matches(x, p) for x, p in zip(v.a['items'], parts))
         if ty.startswith('slice'):
             return v.ty == 'slice'
+        if ':' in ty and ty.split(':')[0] in self.reg.views:
+            vname, cls = ty.split(':')
+            return v.ty == 'obj' and cls in self.repo.mro(v.a['cls']) and self.matches(v, vname)
+        if ty == 'elist':
+            try:
+                from contracts.tree import as_eseq
+                as_eseq(v)
+                return True
+            except Unsupported:
+                return False
         if ty in self.reg.views:
             if v.ty != 'obj':
                 return False
@@ -189,6 +213,20 @@ class Engine(ExprMixin, CallMixin, StmtMixin):
                     raise Unsupported('quantified class invariant')
                 zs.append(it)
         return conj(zs)
+
+    def truth_of(self, v, st):
+        if v.ty == 'obj':
+            view = self._view_or_none(v)
+            if view is None or view.truth is None:
+                if 'builtins.str' in self.repo.mro(v.a['cls']) or 'builtins.list' in self.repo.mro(v.a['cls']):
+                    if view is None:
+                        raise Unsupported('truthiness of %s' % v.a['cls'])
+                return BoolVal(True)
+            ctx = Ctx(self, st, {'self': v})
+            return self.goal_of(self.spec.clause(view.truth, ctx))
+        if v.ty == 'opt' and v.a['some'].ty == 'obj':
+            return And(Not(v.a['isnone']), self.truth_of(v.a['some'], st))
+        return ops.truth(v)
 
     def view_of(self, obj):
         if 'view' in obj.a:
@@ -362,12 +400,19 @@ class Engine(ExprMixin, CallMixin, StmtMixin):
         return Ctx(self, st, n, old=self.entry, old_names=self.entry_names, module=self.cur_fn.module)
 
     def _check_post(self, c, st, res, names):
+        if c.result == 'E' and res.ty == 'obj':
+            res = self.coerce(res, 'E', st)
         ctx = self._post_ctx(c, st, res, names)
         if not self.matches_result(res, c.result):
             self.oblige('%s#result-type(%s)' % (c.key, c.result), st, BoolVal(False), 'A',
                         meta={'got': res.ty})
             return
         for cl in c.ensures:
+            if cl.kind == 'G':
+                self.assume_clause(st, self.spec.clause(cl.text, ctx))
+        for cl in c.ensures:
+            if cl.kind == 'G':
+                continue
             items = self.spec.clause(cl.text, ctx)
             self.oblige('%s#%s' % (c.key, cl.label), st, self.goal_of(items, st), cl.kind, cl.props)
         # a normal return while an exact `raises` condition holds contradicts the contract
@@ -402,10 +447,14 @@ class Engine(ExprMixin, CallMixin, StmtMixin):
     def _check_frame(self, c, st, names):
         allowed = set()
         for path in c.modifies:
-            base, fld = path.split('.')
-            v = names.get(base)
+            parts = path.split('.')
+            v = names.get(parts[0])
+            for fld in parts[1:-1]:
+                if v is None or v.ty != 'obj':
+                    break
+                v = self.entry.heap[v.a['ref']].get(fld)
             if v is not None and v.ty == 'obj':
-                allowed.add((v.a['ref'], fld))
+                allowed.add((v.a['ref'], parts[-1]))
         for ref, fields in self.entry.heap.items():
             for f, v0 in fields.items():
                 if (ref, f) in allowed:
@@ -431,13 +480,14 @@ class Engine(ExprMixin, CallMixin, StmtMixin):
         raise Unsupported('no case of %s matches argument types %s' % (
             qual, {k: v.ty for k, v in binding.items()}))
 
-    def bind_args(self, fi, args, kwargs, st):
+    def bind_args(self, fi, args, kwargs, st, node=None, name=None):
         """python call binding against the real signature; defaults are read from the real AST"""
-        a = fi.node.args
+        a = (node or fi.node).args
+        name = name or (fi.qual if fi is not None else '?')
         pos = [x.arg for x in a.posonlyargs + a.args]
         binding = {}
         if len(args) > len(pos) and not a.vararg:
-            raise Unsupported('too many positional arguments for ' + fi.qual)
+            raise Unsupported('too many positional arguments for ' + name)
         for p, v in zip(pos, args):
             binding[p] = v
         if a.vararg:
@@ -446,10 +496,19 @@ class Engine(ExprMixin, CallMixin, StmtMixin):
                 binding[a.vararg.arg] = extra[0].a['v']
             else:
                 binding[a.vararg.arg] = VList(extra)
+        allnames = set(pos) | {x.arg for x in a.kwonlyargs}
+        extra_kw = {}
         for k, v in kwargs.items():
             if k in binding:
                 raise Unsupported('duplicate argument ' + k)
-            binding[k] = v
+            if k not in allnames:
+                if a.kwarg is None:
+                    raise Unsupported('unexpected keyword argument %s for %s' % (k, name))
+                extra_kw[k] = v
+            else:
+                binding[k] = v
+        if a.kwarg is not None:
+            binding[a.kwarg.arg] = Val('kwargs', None, items=extra_kw)
         defaults = dict(zip(pos[len(pos) - len(a.defaults):], a.defaults))
         for x, d in zip(a.kwonlyargs, a.kw_defaults):
             if d is not None:
@@ -457,8 +516,8 @@ class Engine(ExprMixin, CallMixin, StmtMixin):
         for p in pos + [x.arg for x in a.kwonlyargs]:
             if p not in binding:
                 if p not in defaults:
-                    raise Unsupported('missing argument %s for %s' % (p, fi.qual))
-                binding[p] = self.default_value(defaults[p], fi)
+                    raise Unsupported('missing argument %s for %s' % (p, name))
+                binding[p] = self.default_value(defaults[p], fi or self.cur_fn)
         return binding
 
     def default_value(self, node, fi):
@@ -487,6 +546,11 @@ class Engine(ExprMixin, CallMixin, StmtMixin):
     def apply_contract(self, c, binding, st, node=None):
         """-> outcomes [('val', st, v) | ('raise', st, exc)]"""
         self.stats['contracts_applied'] += 1
+        for p_, t_ in c.types.items():
+            if t_ == 'E' and p_ in binding and binding[p_].ty == 'obj':
+                binding[p_] = self.coerce(binding[p_], 'E', st)
+            if t_.startswith('seq[') and p_ in binding and binding[p_].ty != 'seq':
+                binding[p_] = self._as_seq(binding[p_], t_[4:-1])
         site = '%s@L%s' % (self.cur.key if self.cur else '?', getattr(node, 'lineno', '?'))
         mod = c.qual.split('.')[0]
         pre_ctx = Ctx(self, st, binding, module=mod)
@@ -542,14 +606,40 @@ class Engine(ExprMixin, CallMixin, StmtMixin):
         outs.append(('val', sn, res))
         return outs
 
+    def _as_seq(self, v, el):
+        """constant tuple / static list of element type el -> symbolic sequence value (or None)"""
+        from .values import retype
+        try:
+            if v.ty == 'const' and isinstance(v.a['py'], (tuple, list)):
+                v = VList([lift(x) for x in v.a['py']])
+            if v.ty == 'tuple':
+                v = VList(v.a['items'])
+            if v.ty == 'list':
+                return retype(v, 'seq[%s]' % el)
+        except Unsupported:
+            return None
+        return None
+
+    def coerce(self, v, ty, st):
+        for h in self.reg.attr_hooks:
+            r = h(self, 'coerce', (v, ty), st)
+            if r is not None:
+                return r
+        raise Unsupported('cannot pass %s as %s' % (v.ty, ty))
+
     def _havoc_modifies(self, c, binding, st):
         for path in c.modifies:
-            base, fld = path.split('.')
-            v = binding.get(base)
+            parts = path.split('.')
+            v = binding.get(parts[0])
+            for fld in parts[1:-1]:
+                if v is None or v.ty != 'obj':
+                    break
+                v = st.field(v, fld)
+            fld = parts[-1]
             if v is None or v.ty != 'obj':
                 raise Unsupported('modifies path %s of %s' % (path, c.key))
             old = st.field(v, fld)
-            st.set_field(v, fld, like(old, fld))
+            st.set_field(v, fld, self.fresh_val(old.a['fty'], fld, st) if old.ty == 'unset' else like(old, fld))
 
 
 def _index_terms(g):
